@@ -10,9 +10,11 @@ import (
 	"fmt"
 	"go/constant"
 	"go/types"
+	"os"
 	"path/filepath"
 	"sort"
 	"strings"
+	"time"
 
 	"golang.org/x/tools/go/ssa"
 )
@@ -245,4 +247,95 @@ func (w *World) stringerObligations(run *checkRun) {
 		n += len(st.order)
 	}
 	run.notes = append(run.notes, fmt.Sprintf("schema stringers: %d generated String methods, %d distinct constant values; contract instances generated from the constant declarations (go/types)", len(sts), n))
+}
+
+// regenObligation decides the second clause of C20 - the checked-in
+// types_string.go is exactly what the repository's own stringer produces from
+// the checked-in types.go - by running that generator (package
+// cmd/fitgen/internal/fitstringer, through an injected in-package test, nothing
+// is written to the repository) and comparing byte for byte.  This is the
+// evaluation of a closed statement about two files, not a proof about all
+// inputs; it is listed separately in the evidence.
+func (w *World) regenObligation(run *checkRun) {
+	repo := w.PkgByPath[modPath].Dir
+	fr := &FuncResult{Fn: "types_string.go"}
+	run.results = append(run.results, fr)
+	o := &Obligation{Name: "types_string.go#regenerated", Kind: "regeneration", Fn: "types_string.go", Props: []string{run.prop}, Expect: "unsat", Solver: "go run (repository stringer)", Status: "unsat", Goal: "true", Cond: "true"}
+	run.items = append(run.items, workItem{fr, o})
+	pkgDir := filepath.Join(repo, "cmd", "fitgen", "internal", "fitstringer")
+	src := fmt.Sprintf(`package fitstringer
+
+import (
+	"bytes"
+	"os"
+	"regexp"
+	"strings"
+	"testing"
+)
+
+func TestGovcReplay(govcT *testing.T) {
+	have, err := os.ReadFile(%q)
+	if err != nil {
+		govcT.Fatalf("GOVC-REGEN-ERROR %%v", err)
+	}
+	m := regexp.MustCompile("(?m)^// fit types: \\[(.*)\\]$").FindSubmatch(have)
+	if m == nil {
+		govcT.Fatalf("GOVC-REGEN-ERROR no type list in the header of types_string.go")
+	}
+	out, err := Generate(strings.Fields(string(m[1])), %q)
+	if err != nil {
+		govcT.Fatalf("GOVC-REGEN-ERROR %%v", err)
+	}
+	if !bytes.Equal(out, have) {
+		hl, ol := strings.Split(string(have), "\n"), strings.Split(string(out), "\n")
+		for i := 0; i < len(hl) || i < len(ol); i++ {
+			h, o := "<end of file>", "<end of file>"
+			if i < len(hl) {
+				h = hl[i]
+			}
+			if i < len(ol) {
+				o = ol[i]
+			}
+			if h != o {
+				govcT.Fatalf("GOVC-REPRODUCED: types_string.go differs from the generator's output at line %%d:\n  checked in: %%.200s\n  generated:  %%.200s", i+1, h, o)
+			}
+		}
+	}
+}
+`, filepath.Join(repo, "types_string.go"), filepath.Join(repo, "types.go"))
+	t0 := time.Now()
+	ok, txt := (&replayPlan{pkgDir: pkgDir, pkgPath: modPath + "/cmd/fitgen/internal/fitstringer", src: src, noTag: true}).run(w)
+	o.Seconds = time.Since(t0).Seconds()
+	switch {
+	case ok:
+		o.Status = "sat"
+		o.Model = txt
+		o.Output = txt
+	case strings.Contains(txt, "GOVC-REGEN-ERROR") || !strings.Contains(txt, "ok  \t"):
+		o.Status = "error"
+		o.Output = txt
+	}
+	// the type list of the header is the set of integer types declared in types.go that have constants
+	sts := w.stringerTypes()
+	have, _ := os.ReadFile(filepath.Join(repo, "types_string.go"))
+	listed := map[string]bool{}
+	for _, l := range strings.Split(string(have), "\n") {
+		if strings.HasPrefix(l, "// fit types: [") {
+			for _, n := range strings.Fields(strings.TrimSuffix(strings.TrimPrefix(l, "// fit types: ["), "]")) {
+				listed[n] = true
+			}
+		}
+	}
+	gc := groundCheck{name: "types_string.go#type-list", ok: true}
+	for _, st := range sts {
+		if !listed[st.named.Obj().Name()] {
+			gc.ok = false
+			gc.why = "type " + st.named.Obj().Name() + " has a generated String method but is not in the header's type list"
+		}
+	}
+	o2 := w.groundObligation(run.prop, gc)
+	o2.Kind = "regeneration"
+	o2.Fn = "types_string.go"
+	run.items = append(run.items, workItem{fr, o2})
+	run.trusted["clause 2 of C20 is decided by running the repository's own stringer on the checked-in types.go and comparing with types_string.go (evaluation of a closed statement, not deduction)"] = true
 }
